@@ -145,8 +145,18 @@ func solve(o *Obl, dir string, idx int, timeout time.Duration, each bool) *Solve
 	}
 	got := 0
 	var firstUnknown *ans
+	// thorough tier (each): the other solvers get a bounded grace period after the first definite
+	// answer (twice the time it took, at least 10 s) instead of the whole timeout
+	var grace <-chan time.Time
 	for got < len(solvers) {
-		a := <-ch
+		var a ans
+		select {
+		case a = <-ch:
+		case <-grace:
+			cancel()
+			grace = nil
+			continue
+		}
 		got++
 		res.PerSolver[a.sp.name] = a.status
 		if a.status == "sat" || a.status == "unsat" {
@@ -161,6 +171,12 @@ func solve(o *Obl, dir string, idx int, timeout time.Duration, each bool) *Solve
 				}
 				if !each {
 					cancel()
+				} else if grace == nil {
+					g := 2 * time.Since(start)
+					if g < 10*time.Second {
+						g = 10 * time.Second
+					}
+					grace = time.After(g)
 				}
 			} else if res.Status != a.status {
 				res.Status = "error"
